@@ -484,13 +484,16 @@ def _run(args):
         shutil.rmtree(d, ignore_errors=True)
 
 
-def sweep(ops=None, props=None, jobs=16, limit=None, seed=0):
+def sweep(ops=None, props=None, jobs=16, limit=None, seed=0, modules=None):
     from . import props as P
     t0 = time.time()
     ops = ops or sorted(PER_FUNCTION) + sorted(PER_MODULE) + \
         ["rename-private-attr"]
     props = props or sorted(P.PROPS)
     tasks = enumerate_tasks(ops)
+    if modules is not None:
+        rels = {"src/" + m.replace(".", "/") + ".py" for m in modules}
+        tasks = [t for t in tasks if t[1] is None or t[1] in rels]
     if limit and len(tasks) > limit:
         step = len(tasks) / float(limit)
         tasks = sorted({tasks[int((i * step + seed) % len(tasks))]
